@@ -154,3 +154,28 @@ class FakeMultiTherm:
 
     def getTracerDiffusivity(self, x, T, removeCache=True, phase=None):
         return 1e-17 * np.ones(3)
+
+
+class LoggingTherm:
+    """Pass-through wrapper around a real (pycalphad-backed) thermodynamics object: logs the temperature and size of every
+    interfacial-composition table the model asks for (the same `lookupT` record the scripted backend keeps) and can drop
+    results on a schedule (FaultPlan) at the documented failure values."""
+    def __init__(self, real, faults=None):
+        self._real = real
+        self.faults = faults or FaultPlan()
+        self.lookupT = []
+
+    def __getattr__(self, name):
+        return getattr(self._real, name)
+
+    def getInterfacialComposition(self, T, gExtra=0, precPhase=None):
+        g = np.asarray(gExtra, dtype=float)
+        if g.ndim > 0 and g.size > 1:
+            ph = precPhase if precPhase is not None else self._real.phases[1]
+            self.lookupT.append((ph, float(np.atleast_1d(T)[0]), int(g.size)))
+        return self._real.getInterfacialComposition(T, gExtra, precPhase)
+
+    def getDrivingForce(self, x, T, precPhase=None, removeCache=False, **kw):
+        if self.faults.hit("drivingForce"):
+            return None, None
+        return self._real.getDrivingForce(x, T, precPhase=precPhase, removeCache=removeCache, **kw)
